@@ -11,7 +11,8 @@ MUT = r"^dashmap::(DashMap|DashSet)::(insert|remove|remove_if|remove_if_mut|entr
 def check(F, rep):
     rep.clause("revocation visibility: between the point the connection id is published to the embedder (on_connect) and the point a cancel handle becomes reachable from Clients::disconnect (insert into the registry) no suspension point may lie, unless a missed disconnect leaves state that registration consults")
     rep.clause("disconnect only shuts down connections found under the given endpoint id; with a connection id only the matching one; without one, every connection of that endpoint (active and parked)")
-    rep.undecided("that start_shutdown actually stops service (cancellation token observed by the actor loop: see C05/C07 run loop rules)")
+    rep.clause("the connection actor observes the revocation at its next loop iteration whatever else is pending: the select! arm that polls the cancellation token has no precondition (its disable-bit block is infeasible), so queued traffic cannot keep a revoked connection served")
+    rep.undecided("that the cancelled arm wins against ready traffic within one iteration (biased order is syntactic; see C05/C07 run loop rules)")
 
     # ---- clause 2: disconnect targets
     from ..inline import inlined
@@ -147,8 +148,66 @@ def check(F, rep):
            "a disconnect(endpoint, connection id) issued after on_connect returned Allow but before Clients::register inserts the connection finds nothing, returns false and leaves no trace (disconnect mutates %s, register consults %s); the connection then registers and is served. Window = the confirmation write/flush await inside authorize_with."
            % (sorted(written) or "nothing", sorted(consulted)),
            "Inner::accept|on_connect..register")
+    shutdown_arm_unconditional(F, rep)
 
 
 def _inner_fields(F):
     adt = F.adt(INNER)
     return [(INNER, f["name"]) for f in adt["variants"][0]["fields"]]
+
+
+def shutdown_arm_unconditional(F, rep):
+    ri = body_of(F, rep, S + "client::Actor::run_inner")
+    canc = find_calls(ri, regex=r"CancellationToken::cancelled$")
+    rep.exact("observes", "polls of the cancellation token in the actor loop", len(canc), 1)
+    if len(canc) != 1:
+        return
+    cl = canc[0][1]["dest"]["l"]
+    idx = None
+    for b, i, st in ri.stmts():
+        if st["k"] == "a" and st["rv"]["k"] == "agg" and st["rv"].get("ak") == "tuple" and len(st["rv"]["ops"]) >= 2:
+            for k, o in enumerate(st["rv"]["ops"]):
+                if op_base(o) == cl or (op_base(o) is not None and any(x[0] == "call" and x[1].endswith("CancellationToken::cancelled") for x in copy_sources(ri, op_base(o)))):
+                    idx = k
+    rep.ob("observes", idx is not None, site(ri, canc[0][0]), "the cancellation future is one of the select! branches (branch index %s)" % idx, skey(F, ri, "cancel-is-branch"))
+    if idx is None:
+        return
+    dis = []
+    for b, i, st in ri.stmts():
+        if st["k"] == "a" and st["rv"]["k"] == "bin" and st["rv"]["op"] in ("Shl", "ShlUnchecked") and st["rv"]["b"]["k"] == "const":
+            m = re.match(r"^(?:const )?(\d+)_", str(st["rv"]["b"].get("v")))
+            if m and int(m.group(1)) == idx:
+                dis.append(b)
+    rep.floor("observes", "disable-bit computations for the cancellation branch (select! expansion)", len(dis), 1)
+    # the disable block is entered from `switch <cond> [0: disable, otherwise: skip]`; without a
+    # precondition the select! expansion sets <cond> to the literal `true` in that very block
+    live = []
+    for b in dis:
+        # walk back over the overflow assert that precedes the shift
+        chain = {b}
+        frontier = [b]
+        guards_ = []
+        for _ in range(3):
+            nxt = []
+            for x in frontier:
+                for p in ri.reachable(0):
+                    t = ri.blocks[p]["t"]
+                    tg = [t.get("t")] if t["k"] in ("goto", "assert", "drop", "call") else ([y for _, y in t["targets"]] + [t["otherwise"]] if t["k"] == "switch" else [])
+                    if x in tg and p not in chain:
+                        if t["k"] == "switch":
+                            guards_.append((p, t))
+                        else:
+                            chain.add(p)
+                            nxt.append(p)
+            frontier = nxt
+        infeasible = bool(guards_)
+        for p, t in guards_:
+            l = op_local(t["d"])
+            vals = [st["rv"]["o"].get("v") for st in ri.blocks[p]["s"] if st["k"] == "a" and st["lhs"] == {"l": l} and st["rv"]["k"] == "use" and st["rv"]["o"]["k"] == "const"]
+            zero_targets = [y for v_, y in t["targets"] if int(v_) == 0]
+            leads = any(z in chain for z in zero_targets)
+            if not (leads and vals and str(vals[-1]) in ("true", "const true")):
+                infeasible = False
+        if not infeasible:
+            live.append(b)
+    rep.ob("observes", not live, site(ri, live[0] if live else canc[0][0]), "the cancellation branch of the actor's select! is never disabled: it has no `, if <cond>` precondition (a precondition such as `queue.is_empty()` lets pending traffic keep a revoked connection served)", skey(F, ri, "shutdown-arm-unconditional"))
